@@ -1597,5 +1597,678 @@ Proof.
   intros a evs l1 l2 id Hok s Hl.
   assert (L : LInv s).
   { apply (run_BI_LInv a evs b_init); auto. apply BI_init. intros x y z E. cbn in E. destruct x; discriminate. }
-  now apply L.
+  exact (L l1 l2 id Hl).
+Qed.
+
+(* ================================================================== no stuck state, progress *)
+(* what deliver_data does to the buffer, whatever the flags and the direction: a buffer that survives is untouched and
+   has room left *)
+Lemma deliver_buf stp fl o :
+  (o_hasbuf o = true -> 0 <= o_buf_len o <= o_buf_siz o /\ 1 <= o_buf_siz o) ->
+  (o_hasbuf o = false -> o_buf_len o = 0) ->
+  let o' := fst (deliver_data stp fl o) in
+  (o_hasbuf o' = true -> o_hasbuf o = true /\ o_buf_siz o' = o_buf_siz o /\ o_buf_len o' = o_buf_len o /\
+                         o_buf_len o' < o_buf_siz o') /\
+  (o_hasbuf o' = false -> o_buf_len o' = 0).
+Proof.
+  intros H1 H2. unfold deliver_data.
+  set (und := o_undelivered o + o_buf_len o). set (forced := f_deliver fl || f_done fl || o_flagd o).
+  assert (K : forall deliver err o1 err', (o1 = set_flagd o false \/ o1 = set_err (set_flagd o false) err) ->
+     let o' := fst (let '(d, o2) := dd_data deliver o1 in dd_finish fl forced deliver err' und d o2) in
+     (o_hasbuf o' = true -> o_hasbuf o = true /\ o_buf_siz o' = o_buf_siz o /\ o_buf_len o' = o_buf_len o /\
+                            o_buf_len o' < o_buf_siz o') /\ (o_hasbuf o' = false -> o_buf_len o' = 0)).
+  { intros deliver err o1 err' Ho1.
+    assert (E : o_hasbuf o1 = o_hasbuf o /\ o_buf_len o1 = o_buf_len o /\ o_buf_siz o1 = o_buf_siz o)
+      by (destruct Ho1; subst; cbn; auto).
+    destruct E as (E1 & E2 & E3).
+    unfold dd_data. destruct (o_write o1); cbn [negb].
+    - destruct (o_hasbuf o1 && (o_buf_len o1 =? o_buf_siz o1)) eqn:Full.
+      + unfold dd_finish. destruct (negb deliver || _); cbn; split; auto; discriminate.
+      + unfold dd_finish. rewrite E1, E2, E3 in Full.
+        destruct (negb deliver || _); cbn; rewrite E1, E2, E3; (split; [|auto]); intros HB;
+          rewrite HB in Full; cbn in Full; apply Z.eqb_neq in Full; destruct (H1 HB); repeat split; auto; lia.
+    - destruct (Z.eqb_spec (o_buf_len o1) 0) as [Z0|Z0]; cbn [negb].
+      + unfold dd_finish. destruct (negb deliver || _); cbn; rewrite E1, E2, E3; (split; [|auto]); intros HB;
+          destruct (H1 HB); rewrite E2 in Z0; repeat split; auto; lia.
+      + unfold dd_finish. destruct (negb deliver || _); cbn; split; auto; discriminate. }
+  unfold dd_decide. destruct (negb forced).
+  - cbn [o_low set_flagd o_buf_len o_buf_siz]. destruct (und >=? o_low o).
+    + apply (K true 0 (set_flagd o false)); auto.
+    + destruct (Z.ltb_spec (o_buf_len o) (o_buf_siz o)).
+      * cbn. split; auto.
+      * apply (K false 0 (set_flagd o false)); auto.
+  - destruct ((o_err (set_flagd o false) =? 0) && stp).
+    + apply (K true ECANCELED (set_err (set_flagd o false) ECANCELED)); auto.
+    + apply (K true 0 (set_flagd o false)); auto.
+Qed.
+
+Definition idle_ok (o : op) : Prop :=
+  (o_hasbuf o = true -> o_buf_len o < o_buf_siz o) /\ (o_length o < SIZE_MAX -> o_total o < o_length o).
+Definition buf_ok (o : op) : Prop :=
+  (o_hasbuf o = true -> 0 <= o_buf_len o <= o_buf_siz o /\ 1 <= o_buf_siz o) /\ (o_hasbuf o = false -> o_buf_len o = 0).
+Definition phase_ok (o : op) (ph : phase) : Prop :=
+  match ph with
+  | Idle | Picked => idle_ok o
+  | Performed r =>
+      (r = DISPATCH_OP_DELIVER -> o_length o < SIZE_MAX -> o_total o < o_length o) /\
+      (r <> DISPATCH_OP_DELIVER -> r <> DISPATCH_OP_DELIVER_AND_COMPLETE -> r <> DISPATCH_OP_COMPLETE ->
+       r <> DISPATCH_OP_ERR -> idle_ok o)
+  | Completed => True
+  end.
+
+(* deliver_data keeps buf_ok, and afterwards the buffer (if any) has room *)
+Lemma deliver_buf_ok stp fl o : buf_ok o ->
+  let o' := fst (deliver_data stp fl o) in buf_ok o' /\ (o_hasbuf o' = true -> o_buf_len o' < o_buf_siz o').
+Proof.
+  intros (B1 & B2) o'. destruct (deliver_buf stp fl o B1 B2) as (D1 & D2). fold o' in D1, D2.
+  split; [split; auto|].
+  - intros H. destruct (D1 H) as (H0 & S & L & Lt). destruct (B1 H0). rewrite S, L. lia.
+  - intros H. now destruct (D1 H) as (_ & _ & _ & Lt).
+Qed.
+
+Lemma alloc_read_room c o : RInv o -> 1 <= chunk_size c -> buf_ok o -> idle_ok o ->
+  buf_ok (alloc_buf c o) /\ o_buf_len (alloc_buf c o) < o_buf_siz (alloc_buf c o) /\ o_hasbuf (alloc_buf c o) = true.
+Proof.
+  intros (Hd & Hl & Hu & Hnb & Hb & Hdat & Hpar & Htot) Hc (B1 & B2) (I1 & I2).
+  pose proof (dsize_nonneg (o_data o)) as Hdn.
+  unfold alloc_buf. destruct (o_hasbuf o) eqn:HB.
+  - split; [split; intros X; [apply B1; auto|congruence]|]. split; [apply I1; auto|exact HB].
+  - rewrite Hd. cbn [negb].
+    set (max1 := if dsize (o_data o) =? 0 then o_high o else u64 (o_high o - dsize (o_data o))).
+    assert (M1 : 1 <= max1).
+    { unfold max1. destruct (Z.eqb_spec (dsize (o_data o)) 0). lia. rewrite u64_id; unfold SIZE_MAX in *; lia. }
+    set (max2 := if max1 >? chunk_size c then chunk_size c else max1).
+    assert (M2 : 1 <= max2) by (unfold max2; rewrite Z.gtb_ltb; destruct (Z.ltb_spec (chunk_size c) max1); lia).
+    set (bs := if o_length o <? SIZE_MAX then
+                 let b := o_length o - o_total o in if b >? max2 then max2 else b else max2).
+    assert (B : 1 <= bs).
+    { unfold bs. destruct (Z.ltb_spec (o_length o) SIZE_MAX); [|lia].
+      specialize (I2 H). cbn zeta. rewrite Z.gtb_ltb. destruct (Z.ltb_spec max2 (o_length o - o_total o)); lia. }
+    rewrite (B2 eq_refl). unfold buf_ok. cbn. repeat split; auto; try lia; discriminate.
+Qed.
+
+(* what perform leaves for the action table (reads) *)
+Lemma perform_read_phase c cl stp fd o rs o' r f moved :
+  RInv o -> 1 <= chunk_size c -> buf_ok o -> idle_ok o ->
+  (match first_result rs with Some (Got bs) => zlen bs <= req_len c o | _ => True end) ->
+  perform c cl stp fd o rs = (o', r, f, moved) ->
+  buf_ok o' /\ phase_ok o' (Performed r).
+Proof.
+  intros R Hc B I Hok E.
+  destruct (perform_read _ _ _ _ _ _ _ _ _ _ R Hc Hok E) as (R' & _ & _ & _ & LE & _).
+  unfold perform in E.
+  assert (PE : forall o0 e o1 r1 f1, buf_ok o0 -> idle_ok o0 -> perform_error o0 fd e = (o1, r1, f1) ->
+               buf_ok o1 /\ phase_ok o1 (Performed r1)).
+  { intros o0 e o1 r1 f1 B0 I0 E0. unfold perform_error in E0.
+    repeat (match type of E0 with context [if ?b then _ else _] => destruct b end); inversion E0; subst;
+      (split; [exact B0 || (unfold buf_ok in *; cbn; exact B0)|]);
+      cbn; (split; [discriminate|]); intros; try contradiction; try (unfold idle_ok in *; cbn; exact I0);
+      try (exfalso; auto; fail). }
+  destruct (negb (get_error cl stp fd true =? 0)).
+  - destruct (perform_error o fd _) as [[o1 r1] f1] eqn:E1. inversion E; subst. eapply PE; eauto.
+  - destruct (alloc_read_room c o R Hc B I) as (BA & RA & HA).
+    destruct (alloc_read c o R Hc) as (RIA & _ & _ & TA & _ & LA & _ & WA & _).
+    assert (IA : idle_ok (alloc_buf c o)).
+    { destruct I as (I1 & I2). split; [auto|]. rewrite TA, LA. auto. }
+    destruct (first_result rs) as [[bs|e]|].
+    + destruct (Z.eqb_spec (zlen bs) 0).
+      * inversion E; subst. split; auto. cbn. split; [discriminate|]. intros _ X. now contradiction X.
+      * rewrite WA in E. cbn [o_total set_total o_length set_buf] in E. unfold req_len in Hok.
+        pose proof (zlen_nonneg bs).
+        destruct BA as (BA1 & BA2). destruct (BA1 HA) as ((L0 & L1) & L2).
+        destruct (Z.eqb_spec (o_total (alloc_buf c o) + zlen bs) (o_length (alloc_buf c o))); inversion E; subst;
+          (split; [unfold buf_ok; cbn; rewrite HA; split; [intros _; lia|discriminate]|]); cbn.
+        -- split; [discriminate|]. intros _ _ X. now contradiction X.
+        -- split; [|intros X; now contradiction X]. intros _ HL.
+           destruct R' as (_ & _ & _ & _ & _ & _ & _ & Ht). cbn in Ht. destruct (Ht HL). lia.
+    + destruct (perform_error (alloc_buf c o) fd e) as [[o1 r1] f1] eqn:E1. inversion E; subst. eapply PE; eauto.
+    + inversion E; subst. split; auto. cbn. split; [discriminate|]. intros. exact IA.
+Qed.
+
+Definition NRb hi len (s : st) : Prop := RSt hi len s /\ buf_ok (s_op s).
+Definition NR hi len (s : st) : Prop := NRb hi len s /\ phase_ok (s_op s) (s_phase s).
+
+Lemma buf_ok_set_err o e : buf_ok o -> buf_ok (set_err o e). Proof. unfold buf_ok. cbn. auto. Qed.
+Lemma buf_ok_set_flagd o b : buf_ok o -> buf_ok (set_flagd o b). Proof. unfold buf_ok. cbn. auto. Qed.
+
+(* what must hold BEFORE a delivery so that phase_ok holds after it for phase ph *)
+Definition pre_ok (o : op) (ph : phase) : Prop :=
+  match ph with
+  | Idle | Picked => o_length o < SIZE_MAX -> o_total o < o_length o
+  | Performed r =>
+      (r = DISPATCH_OP_DELIVER -> o_length o < SIZE_MAX -> o_total o < o_length o) /\
+      (r <> DISPATCH_OP_DELIVER -> r <> DISPATCH_OP_DELIVER_AND_COMPLETE -> r <> DISPATCH_OP_COMPLETE ->
+       r <> DISPATCH_OP_ERR -> o_length o < SIZE_MAX -> o_total o < o_length o)
+  | Completed => True
+  end.
+Lemma phase_pre o ph : phase_ok o ph -> pre_ok o ph.
+Proof.
+  destruct ph; cbn; auto; try (intros (_ & X); exact X).
+  intros (P1 & P2). split; auto. intros A1 A2 A3 A4. now destruct (P2 A1 A2 A3 A4).
+Qed.
+Lemma phase_ok_after o o' ph : pre_ok o ph -> o_total o' = o_total o -> o_length o' = o_length o ->
+  (o_hasbuf o' = true -> o_buf_len o' < o_buf_siz o') -> phase_ok o' ph.
+Proof.
+  intros P T L Room. destruct ph; cbn in *; auto.
+  - split; auto. now rewrite T, L.
+  - split; auto. now rewrite T, L.
+  - destruct P as (P1 & P2). rewrite T, L. split; auto. intros A1 A2 A3 A4. split; auto. rewrite T, L. auto.
+Qed.
+
+Lemma NRb_with_deliver hi len s fl ph : NRb hi len s ->
+  NRb hi len (with_deliver s fl ph) /\
+  o_total (s_op (with_deliver s fl ph)) = o_total (s_op s) /\ o_length (s_op (with_deliver s fl ph)) = o_length (s_op s) /\
+  (o_hasbuf (s_op (with_deliver s fl ph)) = true ->
+   o_buf_len (s_op (with_deliver s fl ph)) < o_buf_siz (s_op (with_deliver s fl ph))) /\
+  s_phase (with_deliver s fl ph) = ph.
+Proof.
+  intros (R & B). pose proof (RSt_with_deliver hi len s fl ph R) as R'.
+  unfold with_deliver in *. destruct (deliver_data _ _ _) as [o cs] eqn:E. cbn in *.
+  destruct (deliver_buf_ok (s_stopped s) fl (s_op s) B) as (B' & Room). rewrite E in B', Room. cbn in B', Room.
+  destruct R as (RI & _). destruct (deliver_read _ _ _ _ _ RI E) as (_ & _ & _ & T & _ & L & _).
+  split; [split; [exact R'|exact B']|]. auto.
+Qed.
+
+Lemma NR_with_deliver hi len s fl ph : NRb hi len s -> pre_ok (s_op s) ph -> NR hi len (with_deliver s fl ph).
+Proof.
+  intros N P. destruct (NRb_with_deliver hi len s fl ph N) as (N' & T & L & Room & Ph).
+  split; auto. rewrite Ph. eapply phase_ok_after; eauto.
+Qed.
+
+Lemma NR_complete hi len s : NRb hi len s -> NR hi len (complete s).
+Proof.
+  intros (R & B). pose proof (RSt_complete hi len s R) as R'. unfold complete in *.
+  destruct (deliver_data _ _ _) as [o cs] eqn:E. cbn in *.
+  destruct (deliver_buf_ok (s_stopped s) FL_DONE (s_op s) B) as (B' & _). rewrite E in B'. cbn in B'.
+  split; [split; auto|]. cbn. exact I.
+Qed.
+
+Lemma NRb_set_err hi len s e : NRb hi len s ->
+  NRb hi len (mkSt (set_err (s_op s) e) (s_phase s) (s_closed s) (s_stopped s) (s_fderr s) (s_calls s) (s_io s)).
+Proof. intros (R & B). split; [unfold RSt; cbn; apply RS_set_err; exact R|cbn; now apply buf_ok_set_err]. Qed.
+
+Lemma step_NR c hi len s e : 1 <= chunk_size c -> NR hi len s -> result_ok c s e = true -> NR hi len (step c s e).
+Proof.
+  intros Hc N Hok. pose proof N as ((R & B) & P).
+  assert (Nb : NRb hi len s) by (split; auto).
+  destruct e; cbn [step]; try exact N.
+  - (* Check *) destruct (s_phase s) eqn:Ph; try exact N.
+    destruct (negb _).
+    + apply NR_complete. now apply (NRb_set_err hi len s).
+    + destruct (_ && _).
+      * apply NR_with_deliver; auto. apply (phase_pre _ Picked). exact P.
+      * split; auto.
+  - (* Perform *) destruct (s_phase s) eqn:Ph; try exact N.
+    pose proof (step_RSt c hi len s (EvPerform rs) Hc R Hok) as R'. cbn [step] in R'. rewrite Ph in R'.
+    unfold result_ok in Hok. rewrite Ph in Hok.
+    destruct (perform _ _ _ _ _ _) as [[[o r] f] moved] eqn:E.
+    assert (OK : match first_result rs with Some (Got bs) => zlen bs <= req_len c (s_op s) | _ => True end).
+    { destruct (first_result rs) as [[bs|]|]; auto. now apply Z.leb_le. }
+    destruct R as (RI & RR).
+    destruct (perform_read_phase _ _ _ _ _ _ _ _ _ _ RI Hc B P OK E) as (B' & P').
+    split; [split; auto|exact P'].
+  - (* Act *) destruct (s_phase s) eqn:Ph; try exact N.
+    destruct P as (P1 & P2).
+    assert (IDLE : result <> DISPATCH_OP_DELIVER -> result <> DISPATCH_OP_DELIVER_AND_COMPLETE ->
+                   result <> DISPATCH_OP_COMPLETE -> result <> DISPATCH_OP_ERR -> NR hi len (set_phase s Idle)).
+    { intros A1 A2 A3 A4. split; [exact Nb|]. cbn. now apply P2. }
+    destruct (Z.eqb_spec result DISPATCH_OP_DELIVER). { apply NR_with_deliver; auto. cbn. auto. }
+    destruct (Z.eqb_spec result DISPATCH_OP_DELIVER_AND_COMPLETE).
+    { apply NR_complete. now destruct (NRb_with_deliver hi len s FL_DELIVER_NO_EMPTY Idle Nb). }
+    destruct (Z.eqb_spec result DISPATCH_OP_COMPLETE). { now apply NR_complete. }
+    destruct (Z.eqb_spec result DISPATCH_OP_COMPLETE_RESUME).
+    { destruct (o_disk (s_op s)); [|now apply NR_complete]. apply IDLE; auto; subst; discriminate. }
+    destruct (Z.eqb_spec result DISPATCH_OP_RESUME). { apply IDLE; auto; subst; discriminate. }
+    destruct (Z.eqb_spec result DISPATCH_OP_ERR). { now apply NR_complete. }
+    destruct (Z.eqb_spec result DISPATCH_OP_FD_ERR).
+    { destruct (o_disk (s_op s)); [now apply NR_complete|]. apply IDLE; auto. }
+    apply IDLE; auto.
+  - (* Timer *) destruct (s_phase s) eqn:Ph; try exact N;
+    (destruct (negb _); [exact N|]);
+    (destruct (_ && _);
+      [split; [split; [unfold RSt in *; cbn; destruct R as (RI & RR); split; [unfold RInv in *; cbn; exact RI|exact RR]
+                      |cbn; now apply buf_ok_set_flagd]
+              |cbn; rewrite ?Ph; unfold phase_ok, idle_ok in *; cbn; exact P]
+      |apply NR_with_deliver; auto; apply phase_pre; exact P]).
+  - (* Cleanup *) destruct (s_phase s) eqn:Ph; try exact N;
+    (destruct (is_active s); [exact N|]);
+    (destruct fd_wide;
+      [destruct (s_fderr s =? 0); [exact N|apply NR_complete;
+         destruct (o_err (s_op s) =? 0); [rewrite <- Ph; now apply (NRb_set_err hi len s)|rewrite <- Ph; destruct s; exact Nb]]
+      |destruct (s_stopped s); [now apply NR_complete|exact N]]).
+Qed.
+
+Lemma run_NR c hi len evs : 1 <= chunk_size c -> forall s, NR hi len s -> run_ok c s evs = true -> NR hi len (run c s evs).
+Proof.
+  intros Hc. induction evs as [|e t IH]; intros s H Hok; simpl; auto.
+  simpl in Hok. apply andb_prop in Hok. destruct Hok. apply IH; auto. now apply step_NR.
+Qed.
+Lemma NR_init disk conv len p iv strict : read_params_ok p -> 1 <= len ->
+  NR (p_high p) len (st_init (op_init false disk conv len [] p iv strict)).
+Proof.
+  intros Hp Hl. split; [split; [apply RSt_init; auto; lia|]|]; cbn.
+  - unfold buf_ok. cbn. split; [discriminate|auto].
+  - unfold idle_ok. cbn. split; [discriminate|]. intros _. lia.
+Qed.
+
+(* the handler always has a next step, and it changes the phase (no event is needed from anyone else to move on;
+   whether the system call finds the descriptor ready is the kernel's business: EAGAIN leads back to Idle, where the
+   stream's source re-runs the handler when the descriptor becomes ready) *)
+Theorem handler_step_enabled : forall c s,
+  match s_phase s with
+  | Idle => s_phase (step c s EvCheck) = Picked \/ s_phase (step c s EvCheck) = Completed
+  | Picked => forall rs, exists r, s_phase (step c s (EvPerform rs)) = Performed r
+  | Performed _ => s_phase (step c s EvAct) = Idle \/ s_phase (step c s EvAct) = Completed
+  | Completed => True
+  end.
+Proof.
+  intros c s. destruct (s_phase s) eqn:Ph; cbn [step]; rewrite ?Ph; auto.
+  - destruct (negb _); [right; apply complete_phase|]. destruct (_ && _); [left; apply with_deliver_phase|left; reflexivity].
+  - intros rs. destruct (perform _ _ _ _ _ _) as [[[o r] f] moved]. exists r. reflexivity.
+  - repeat (match goal with |- context [if ?b then _ else _] => destruct b end);
+      rewrite ?complete_phase, ?with_deliver_phase; auto.
+Qed.
+
+(* no stuck state (reads): whenever the handler is about to issue a system call, it asks for at least one byte -- so a
+   ready descriptor always yields progress and a 0 return can only mean EOF *)
+Theorem no_stuck_read : forall c disk conv len p iv strict evs,
+  1 <= chunk_size c -> read_params_ok p -> 1 <= len ->
+  let s0 := st_init (op_init false disk conv len [] p iv strict) in
+  run_ok c s0 evs = true ->
+  let s := run c s0 evs in
+  (s_phase s = Idle \/ s_phase s = Picked) -> 1 <= req_len c (s_op s).
+Proof.
+  intros c disk conv len p iv strict evs Hc Hp Hl s0 Hok s Ph.
+  assert (N : NR (p_high p) len s) by (apply run_NR; auto; now apply NR_init).
+  destruct N as (((RI & _) & B) & P).
+  assert (I : idle_ok (s_op s)) by (destruct Ph as [E|E]; rewrite E in P; exact P).
+  destruct (alloc_read_room c (s_op s) RI Hc B I) as (_ & Room & _). unfold req_len. lia.
+Qed.
+
+(* ------------------------------------------------------------------ progress with a ready descriptor (reads) *)
+Definition round (rs : list sysres) : list event := [EvCheck; EvPerform rs; EvAct].
+Fixpoint ready_rounds (c : cfg) (s : st) (rounds : list (list sysres)) : Prop :=
+  match rounds with
+  | [] => True
+  | rs :: t =>
+      match first_result rs with
+      | Some (Got bs) => 1 <= zlen bs <= req_len c (s_op (step c s EvCheck))
+      | _ => False
+      end /\ ready_rounds c (run c s (round rs)) t
+  end.
+
+Lemma run_completed c evs : forall s, s_phase s = Completed -> s_phase (run c s evs) = Completed.
+Proof. induction evs as [|e t IH]; intros s P; simpl; auto. apply IH. now apply step_completed. Qed.
+
+Lemma read_round_progress c hi len s rs bs : 1 <= chunk_size c -> NR hi len s -> s_phase s = Idle ->
+  first_result rs = Some (Got bs) -> 1 <= zlen bs <= req_len c (s_op (step c s EvCheck)) ->
+  let s' := run c s (round rs) in
+  NR hi len s' /\ (s_phase s' = Completed \/ (s_phase s' = Idle /\ o_total (s_op s') = o_total (s_op s) + zlen bs)).
+Proof.
+  intros Hc N Ph Fr Hb s'.
+  assert (OK : run_ok c s (round rs) = true).
+  { unfold round. cbn [run_ok]. remember (step c s EvCheck) as s1 eqn:Es1.
+    change (result_ok c s EvCheck) with true. cbn [andb].
+    assert (X : result_ok c s1 (EvPerform rs) = true).
+    { unfold result_ok. destruct (s_phase s1); auto. rewrite Fr. apply Z.leb_le. lia. }
+    rewrite X. cbn [andb]. reflexivity. }
+  split; [now apply run_NR|].
+  subst s'. unfold round, run. cbn [fold_left].
+  set (s1 := step c s EvCheck) in *.
+  assert (S1 : s_phase s1 = Completed \/
+               (s_phase s1 = Picked /\ o_total (s_op s1) = o_total (s_op s) /\ s_closed s1 = s_closed s /\
+                s_stopped s1 = s_stopped s /\ s_fderr s1 = s_fderr s /\
+                get_error (s_closed s) (s_stopped s) (s_fderr s) true = 0 /\ NR hi len s1)).
+  { assert (N1 : NR hi len s1).
+    { apply step_NR; auto. }
+    subst s1. cbn [step] in *. rewrite Ph in *.
+    destruct (Z.eqb_spec (get_error (s_closed s) (s_stopped s) (s_fderr s) true) 0) as [G|G]; cbn [negb] in *.
+    - right. destruct (_ && _).
+      + destruct N as (Nb & _). destruct (NRb_with_deliver hi len s FL_DELIVER Picked Nb) as (_ & T & _ & _ & P).
+        unfold with_deliver in *. destruct (deliver_data _ _ _); cbn in *. auto 10.
+      + cbn. auto 10.
+    - left. apply complete_phase. }
+  destruct S1 as [C1|(P1 & T1 & Cl & St & Fd & G & N1)].
+  - left. apply (run_completed c [EvPerform rs; EvAct]). exact C1.
+  - cbn [step]. rewrite P1.
+    destruct (perform c (s_closed s1) (s_stopped s1) (s_fderr s1) (s_op s1) rs) as [[[o r] f] moved] eqn:E.
+    cbn [step s_phase].
+    unfold perform in E. rewrite Cl, St, Fd, G in E. cbn [Z.eqb negb] in E. rewrite Fr in E.
+    destruct (Z.eqb_spec (zlen bs) 0); [lia|].
+    destruct N1 as (((RI & _) & _) & _).
+    destruct (alloc_read c (s_op s1) RI Hc) as (_ & _ & _ & TA & _ & _ & _ & WA & _).
+    rewrite WA in E. cbn [o_total set_total o_length set_buf] in E.
+    destruct (_ =? _) in E; injection E as <- <- <- <-.
+    + left. change (DISPATCH_OP_COMPLETE =? DISPATCH_OP_DELIVER) with false.
+      change (DISPATCH_OP_COMPLETE =? DISPATCH_OP_DELIVER_AND_COMPLETE) with false.
+      change (DISPATCH_OP_COMPLETE =? DISPATCH_OP_COMPLETE) with true. cbn iota. apply complete_phase.
+    + right. change (DISPATCH_OP_DELIVER =? DISPATCH_OP_DELIVER) with true. cbn iota.
+      split; [apply with_deliver_phase|].
+      unfold with_deliver. cbn [s_op s_stopped].
+      match goal with |- context [deliver_data ?a ?b ?x] => destruct (deliver_data a b x) as [o2 cs2] eqn:E2 end.
+      cbn. 
+      assert (T2 : o_total o2 = o_total (fst (deliver_data (s_stopped s1) FL_DEFAULT
+          (set_total (set_buf (alloc_buf c (s_op s1)) (o_hasbuf (alloc_buf c (s_op s1))) (o_buf_siz (alloc_buf c (s_op s1)))
+             (o_buf_len (alloc_buf c (s_op s1)) + zlen bs) (o_buf (alloc_buf c (s_op s1)) ++ bs))
+             (o_total (alloc_buf c (s_op s1)) + zlen bs))))) by (rewrite E2; reflexivity).
+      rewrite T2. clear T2 E2.
+      (* deliver_data never changes op->total *)
+      match goal with |- o_total (fst (deliver_data ?a ?b ?x)) = _ => 
+        assert (KT : forall stp fl x0, o_total (fst (deliver_data stp fl x0)) = o_total x0) end.
+      { intros stp fl x0. unfold deliver_data, dd_decide, dd_data, dd_finish.
+        repeat (match goal with |- context [if ?b then _ else _] => destruct b end); cbn; reflexivity. }
+      rewrite KT. cbn [o_total set_total]. rewrite TA, T1. reflexivity.
+Qed.
+
+Lemma read_completes_aux c hi len : 1 <= chunk_size c -> len < SIZE_MAX ->
+  forall rounds s, NR hi len s -> (s_phase s = Idle \/ s_phase s = Completed) ->
+  ready_rounds c s rounds -> len - o_total (s_op s) <= Z.of_nat (length rounds) ->
+  s_phase (run c s (concat (map round rounds))) = Completed.
+Proof.
+  intros Hc Hl. induction rounds as [|rs t IH]; intros s N Ph Hr Hm.
+  - cbn. destruct Ph as [Ph|Ph]; auto. exfalso.
+    destruct N as (((_ & _ & _ & _ & _ & L) & _) & P). rewrite Ph in P. destruct P as (_ & I2).
+    cbn in Hm. rewrite L in I2. specialize (I2 Hl). lia.
+  - cbn [map concat]. unfold run. rewrite fold_left_app. fold (run c s (round rs)).
+    fold (run c (run c s (round rs)) (concat (map round t))).
+    destruct Ph as [Ph|Ph]; [|apply run_completed; now apply run_completed].
+    cbn [ready_rounds] in Hr. destruct Hr as (Hf & Hr).
+    destruct (first_result rs) as [[bs|]|] eqn:Fr; try contradiction.
+    destruct (read_round_progress c hi len s rs bs Hc N Ph Fr Hf) as (N' & [C|(I & T)]).
+    + now apply run_completed.
+    + apply IH; auto. rewrite T. cbn [length] in Hm. lia.
+Qed.
+
+(* a read of bounded length whose descriptor is ready whenever the handler asks (each system call returns at least one
+   byte) completes -- done is delivered -- within length rounds of the handler *)
+Theorem read_completes_when_ready : forall c disk conv len p iv strict rounds,
+  1 <= chunk_size c -> read_params_ok p -> 1 <= len < SIZE_MAX ->
+  let s0 := st_init (op_init false disk conv len [] p iv strict) in
+  ready_rounds c s0 rounds -> len <= Z.of_nat (length rounds) ->
+  let s := run c s0 (concat (map round rounds)) in
+  s_phase s = Completed /\ done_last (s_calls s).
+Proof.
+  intros c disk conv len p iv strict rounds Hc Hp Hl s0 Hr Hn s.
+  assert (C : s_phase s = Completed).
+  { apply (read_completes_aux c (p_high p) len Hc ltac:(lia) rounds s0); auto.
+    - apply NR_init; auto; lia.
+    - cbn. lia. }
+  split; auto. now apply done_exactly_once_last.
+Qed.
+
+(* ------------------------------------------------------------------ the same for writes *)
+Lemma deliver_keeps stp fl x : let o' := fst (deliver_data stp fl x) in
+  o_total o' = o_total x /\ o_length o' = o_length x /\ o_high o' = o_high x /\ o_write o' = o_write x.
+Proof.
+  unfold deliver_data, dd_decide, dd_data, dd_finish.
+  repeat (match goal with |- context [if ?b then _ else _] => destruct b end); cbn; auto.
+Qed.
+
+Lemma wbuf_scan_pos : forall d ch acc, 1 <= ch -> 0 <= acc -> (1 <= acc \/ 1 <= dsize d) -> 1 <= wbuf_scan ch acc d.
+Proof.
+  induction d as [|r t IH]; intros ch acc Hc Ha H; simpl.
+  - destruct H; auto. unfold dsize, flat in H. cbn in H. change (zlen (@nil Z)) with 0 in H. lia.
+  - assert (D : dsize (r :: t) = zlen r + dsize t) by (unfold dsize, flat; simpl; now rewrite zlen_app).
+    pose proof (zlen_nonneg r). pose proof (dsize_nonneg t).
+    destruct (Z.eqb_spec acc 0) as [A0|A0]; cbn [orb].
+    + subst acc. destruct (Z.ltb_spec (0 + zlen r) ch).
+      * apply IH; auto; lia.
+      * lia.
+    + destruct (Z.leb_spec (acc + zlen r) ch); destruct (Z.ltb_spec (acc + zlen r) ch); try lia;
+        try (apply IH; auto; lia).
+Qed.
+
+Lemma alloc_write_room c sub o : WInv sub o -> 1 <= chunk_size c -> 1 <= o_high o -> buf_ok o -> idle_ok o ->
+  zlen sub < SIZE_MAX ->
+  buf_ok (alloc_buf c o) /\ o_buf_len (alloc_buf c o) < o_buf_siz (alloc_buf c o) /\ o_hasbuf (alloc_buf c o) = true.
+Proof.
+  intros WI Hc Hh (B1 & B2) (I1 & I2) Hs. pose proof WI as (W & L & B & T & D & Hnb & Hb & Hhi).
+  unfold alloc_buf. destruct (o_hasbuf o) eqn:HB.
+  - split; [split; intros X; [apply B1; auto|congruence]|]. split; [apply I1; auto|exact HB].
+  - rewrite W. cbn [negb].
+    set (ch := if chunk_size c >? o_high o then o_high o else chunk_size c).
+    assert (Ch : 1 <= ch) by (unfold ch; rewrite Z.gtb_ltb; destruct (Z.ltb_spec (o_high o) (chunk_size c)); lia).
+    assert (DS : 1 <= dsize (o_data o)).
+    { unfold dsize. rewrite D, zlen_skipn by lia. rewrite L in I2. specialize (I2 Hs). rewrite (B2 eq_refl) in *. lia. }
+    pose proof (wbuf_scan_pos (o_data o) ch 0 Ch ltac:(lia) (or_intror DS)) as WB.
+    set (bs0 := wbuf_scan ch 0 (o_data o)) in *.
+    set (bs := if bs0 >? o_high o then o_high o else bs0).
+    assert (BS : 1 <= bs) by (unfold bs; rewrite Z.gtb_ltb; destruct (Z.ltb_spec (o_high o) bs0); lia).
+    rewrite (B2 eq_refl). unfold buf_ok. cbn. repeat split; auto; try lia; discriminate.
+Qed.
+
+Lemma perform_write_phase c sub cl stp fd o rs o' r f moved :
+  WInv sub o -> 1 <= chunk_size c -> 1 <= o_high o -> buf_ok o -> idle_ok o -> zlen sub < SIZE_MAX ->
+  wres_ok c o rs -> perform c cl stp fd o rs = (o', r, f, moved) ->
+  buf_ok o' /\ phase_ok o' (Performed r).
+Proof.
+  intros WI Hc Hh B I Hs Hok E.
+  destruct (perform_write _ _ _ _ _ _ _ _ _ _ _ WI ltac:(lia) Hok E) as (WI' & _ & _ & _ & _).
+  unfold perform in E.
+  assert (PE : forall o0 e o1 r1 f1, buf_ok o0 -> idle_ok o0 -> perform_error o0 fd e = (o1, r1, f1) ->
+               buf_ok o1 /\ phase_ok o1 (Performed r1)).
+  { intros o0 e o1 r1 f1 B0 I0 E0. unfold perform_error in E0.
+    repeat (match type of E0 with context [if ?b then _ else _] => destruct b end); inversion E0; subst;
+      (split; [exact B0 || (unfold buf_ok in *; cbn; exact B0)|]);
+      cbn; (split; [discriminate|]); intros; try contradiction; try (unfold idle_ok in *; cbn; exact I0);
+      try (exfalso; auto; fail). }
+  destruct (negb (get_error cl stp fd true =? 0)).
+  - destruct (perform_error o fd _) as [[o1 r1] f1] eqn:E1. inversion E; subst. eapply PE; eauto.
+  - destruct (alloc_write_room c sub o WI Hc Hh B I Hs) as (BA & RA & HA).
+    destruct (alloc_write c sub o WI ltac:(lia)) as (WA & _ & TA & _ & _).
+    pose proof WA as (Ww & La & _). pose proof WI as (_ & Lo & _).
+    assert (IA : idle_ok (alloc_buf c o)).
+    { destruct I as (I1 & I2). split; [auto|]. rewrite TA, La, <- Lo. auto. }
+    unfold wres_ok in Hok.
+    destruct (first_result rs) as [[bs|e]|].
+    + destruct Hok as (P1 & P2). destruct (Z.eqb_spec (zlen bs) 0); [lia|].
+      rewrite Ww in E. cbn [o_total set_total o_length set_buf] in E. unfold req_len in P2.
+      destruct BA as (BA1 & BA2). destruct (BA1 HA) as ((L0 & L1) & L2).
+      destruct (Z.eqb_spec (o_total (alloc_buf c o) + zlen bs) (o_length (alloc_buf c o))); inversion E; subst;
+        (split; [unfold buf_ok; cbn; rewrite HA; split; [intros _; lia|discriminate]|]); cbn.
+      * split; [discriminate|]. intros _ _ X. now contradiction X.
+      * split; [|intros X; now contradiction X]. intros _ HL.
+        destruct WI' as (_ & L' & _ & T' & _). cbn in L', T'. lia.
+    + destruct (perform_error (alloc_buf c o) fd e) as [[o1 r1] f1] eqn:E1. inversion E; subst. eapply PE; eauto.
+    + inversion E; subst. split; auto. cbn. split; [discriminate|]. intros. exact IA.
+Qed.
+
+Definition XS (s : st) : Prop := 1 <= o_high (s_op s) /\ buf_ok (s_op s) /\ phase_ok (s_op s) (s_phase s).
+Definition NW (sub : list Z) (s : st) : Prop := WS sub s /\ XS s.
+
+Lemma XS_with_deliver s fl ph : 1 <= o_high (s_op s) -> buf_ok (s_op s) -> pre_ok (s_op s) ph -> XS (with_deliver s fl ph).
+Proof.
+  intros H B P. unfold XS, with_deliver.
+  pose proof (deliver_keeps (s_stopped s) fl (s_op s)) as K. pose proof (deliver_buf_ok (s_stopped s) fl (s_op s) B) as D.
+  destruct (deliver_data _ _ _) as [o cs]. cbn in *. destruct K as (T & L & Hh & _). destruct D as (B' & Room).
+  split; [lia|]. split; auto. eapply phase_ok_after; eauto.
+Qed.
+Lemma XS_complete s : 1 <= o_high (s_op s) -> buf_ok (s_op s) -> XS (complete s).
+Proof.
+  intros H B. unfold XS, complete.
+  pose proof (deliver_keeps (s_stopped s) FL_DONE (s_op s)) as K.
+  pose proof (deliver_buf_ok (s_stopped s) FL_DONE (s_op s) B) as D.
+  destruct (deliver_data _ _ _) as [o cs]. cbn in *. destruct K as (T & L & Hh & _). destruct D as (B' & Room).
+  split; [lia|]. split; auto.
+Qed.
+
+Lemma HB_with_deliver s fl ph : 1 <= o_high (s_op s) -> buf_ok (s_op s) ->
+  1 <= o_high (s_op (with_deliver s fl ph)) /\ buf_ok (s_op (with_deliver s fl ph)).
+Proof.
+  intros H B. unfold with_deliver.
+  pose proof (deliver_keeps (s_stopped s) fl (s_op s)) as K. pose proof (deliver_buf_ok (s_stopped s) fl (s_op s) B) as D.
+  destruct (deliver_data _ _ _) as [o cs]. cbn in *. destruct K as (_ & _ & Hh & _). destruct D as (B' & _).
+  split; [lia|auto].
+Qed.
+
+Lemma step_NW c sub s e : 1 <= chunk_size c -> zlen sub < SIZE_MAX -> NW sub s -> wresult_ok c s e -> NW sub (step c s e).
+Proof.
+  intros Hc Hs (W & (H & B & P)) Hok. split; [now apply step_WS|].
+  assert (X0 : XS s) by (split; [|split]; assumption).
+  destruct e; cbn [step]; try exact X0.
+  - (* Check *) destruct (s_phase s) eqn:Ph; try exact X0.
+    destruct (negb _).
+    + apply XS_complete; cbn; auto; now apply buf_ok_set_err.
+    + destruct (_ && _); [apply XS_with_deliver; auto; apply (phase_pre _ Picked); exact P|unfold XS; cbn; auto].
+  - (* Perform *) destruct (s_phase s) eqn:Ph; try exact X0.
+    unfold wresult_ok in Hok. rewrite Ph in Hok.
+    destruct (perform _ _ _ _ _ _) as [[[o r] f] moved] eqn:E.
+    destruct W as ((WI & _) & _).
+    destruct (perform_write_phase _ _ _ _ _ _ _ _ _ _ _ WI Hc H B P Hs Hok E) as (B' & P').
+    unfold XS. cbn. split; auto.
+    (* op->params.high is never written by perform *)
+    assert (KH : o_high o = o_high (s_op s)).
+    { clear - E. unfold perform in E.
+      assert (PEH : forall o0 e o1 r1 f1, perform_error o0 (s_fderr s) e = (o1, r1, f1) -> o_high o1 = o_high o0).
+      { intros o0 e0 o1 r1 f1 E0. unfold perform_error in E0.
+        repeat (match type of E0 with context [if ?b then _ else _] => destruct b end); inversion E0; subst; reflexivity. }
+      assert (AH : o_high (alloc_buf c (s_op s)) = o_high (s_op s)).
+      { unfold alloc_buf. repeat (match goal with |- context [if ?b then _ else _] => destruct b end); reflexivity. }
+      destruct (negb _).
+      - destruct (perform_error _ _ _) as [[o1 r1] f1] eqn:E1. inversion E; subst. eapply PEH; eauto.
+      - destruct (first_result rs) as [[bs|e0]|].
+        + destruct (zlen bs =? 0); [inversion E; subst; exact AH|].
+          destruct (_ =? _) in E; inversion E; subst; cbn; exact AH.
+        + destruct (perform_error _ _ _) as [[o1 r1] f1] eqn:E1. inversion E; subst. rewrite (PEH _ _ _ _ _ E1). exact AH.
+        + inversion E; subst. exact AH. }
+    lia.
+  - (* Act *) destruct (s_phase s) eqn:Ph; try exact X0.
+    destruct P as (P1 & P2).
+    assert (IDLE : result <> DISPATCH_OP_DELIVER -> result <> DISPATCH_OP_DELIVER_AND_COMPLETE ->
+                   result <> DISPATCH_OP_COMPLETE -> result <> DISPATCH_OP_ERR -> XS (set_phase s Idle)).
+    { intros A1 A2 A3 A4. unfold XS. cbn. split; auto. }
+    destruct (Z.eqb_spec result DISPATCH_OP_DELIVER). { apply XS_with_deliver; auto. cbn. auto. }
+    destruct (Z.eqb_spec result DISPATCH_OP_DELIVER_AND_COMPLETE).
+    { destruct (HB_with_deliver s FL_DELIVER_NO_EMPTY Idle H B). now apply XS_complete. }
+    destruct (Z.eqb_spec result DISPATCH_OP_COMPLETE). { now apply XS_complete. }
+    destruct (Z.eqb_spec result DISPATCH_OP_COMPLETE_RESUME).
+    { destruct (o_disk (s_op s)); [|now apply XS_complete]. apply IDLE; auto; subst; discriminate. }
+    destruct (Z.eqb_spec result DISPATCH_OP_RESUME). { apply IDLE; auto; subst; discriminate. }
+    destruct (Z.eqb_spec result DISPATCH_OP_ERR). { now apply XS_complete. }
+    destruct (Z.eqb_spec result DISPATCH_OP_FD_ERR).
+    { destruct (o_disk (s_op s)); [now apply XS_complete|]. apply IDLE; auto. }
+    apply IDLE; auto.
+  - (* Timer *) destruct (s_phase s) eqn:Ph; try exact X0;
+    (destruct (negb _); [exact X0|]);
+    (destruct (_ && _);
+      [unfold XS; cbn; rewrite ?Ph; split; [exact H|split; [now apply buf_ok_set_flagd|unfold phase_ok, idle_ok in *; cbn; exact P]]
+      |apply XS_with_deliver; auto; apply phase_pre; exact P]).
+  - (* Cleanup *) destruct (s_phase s) eqn:Ph; try exact X0;
+    (destruct (is_active s); [exact X0|]);
+    (destruct fd_wide;
+      [destruct (s_fderr s =? 0); [exact X0|apply XS_complete; cbn;
+         destruct (o_err (s_op s) =? 0); cbn; auto; now apply buf_ok_set_err]
+      |destruct (s_stopped s); [now apply XS_complete|exact X0]]).
+Qed.
+
+Lemma run_NW c sub evs : 1 <= chunk_size c -> zlen sub < SIZE_MAX -> forall s, NW sub s -> wrun_ok c s evs -> NW sub (run c s evs).
+Proof.
+  intros Hc Hs. induction evs as [|e t IH]; intros s N Hok; simpl; auto.
+  destruct Hok. apply IH; auto. now apply step_NW.
+Qed.
+
+Lemma NW_init disk conv d p iv strict : 1 <= p_high p -> 1 <= zlen (flat d) ->
+  NW (flat d) (st_init (op_init true disk conv (zlen (flat d)) d p iv strict)).
+Proof.
+  intros Hh Hl. assert (H0 : 0 <= p_high p) by lia. split; [now apply WS_init|]. remember (zlen (flat d)) as n. unfold XS, buf_ok, idle_ok. cbn.
+  split; auto. split; [split; [discriminate|auto]|]. split; [discriminate|]. intros _. cbn. lia.
+Qed.
+
+(* no stuck state (writes): the next write() always asks for at least one byte *)
+Theorem no_stuck_write : forall c disk conv d p iv strict evs,
+  1 <= chunk_size c -> 1 <= p_high p -> 1 <= zlen (flat d) < SIZE_MAX ->
+  let s0 := st_init (op_init true disk conv (zlen (flat d)) d p iv strict) in
+  wrun_ok c s0 evs ->
+  let s := run c s0 evs in
+  (s_phase s = Idle \/ s_phase s = Picked) -> 1 <= req_len c (s_op s).
+Proof.
+  intros c disk conv d p iv strict evs Hc Hh Hl s0 Hok s Ph.
+  assert (N : NW (flat d) s) by (apply run_NW; auto; try lia; apply NW_init; auto; lia).
+  destruct N as (((WI & _) & _) & (H & B & P)).
+  assert (I : idle_ok (s_op s)) by (destruct Ph as [E|E]; rewrite E in P; exact P).
+  destruct (alloc_write_room c (flat d) (s_op s) WI Hc H B I ltac:(lia)) as (_ & Room & _). unfold req_len. lia.
+Qed.
+
+Lemma write_round_progress c sub s rs bs : 1 <= chunk_size c -> zlen sub < SIZE_MAX -> NW sub s -> s_phase s = Idle ->
+  first_result rs = Some (Got bs) -> 1 <= zlen bs <= req_len c (s_op (step c s EvCheck)) ->
+  let s' := run c s (round rs) in
+  NW sub s' /\ (s_phase s' = Completed \/ (s_phase s' = Idle /\ o_total (s_op s') = o_total (s_op s) + zlen bs)).
+Proof.
+  intros Hc Hs N Ph Fr Hb s'.
+  assert (OK : wrun_ok c s (round rs)).
+  { unfold round. cbn [wrun_ok]. remember (step c s EvCheck) as s1 eqn:Es1. split; [exact I|]. split; [|split; exact I].
+    unfold wresult_ok. destruct (s_phase s1); auto. unfold wres_ok. rewrite Fr. lia. }
+  split; [now apply run_NW|].
+  subst s'. unfold round, run. cbn [fold_left].
+  set (s1 := step c s EvCheck) in *.
+  assert (KT : forall stp fl x0, o_total (fst (deliver_data stp fl x0)) = o_total x0)
+    by (intros; now destruct (deliver_keeps stp fl x0)).
+  assert (S1 : s_phase s1 = Completed \/
+               (s_phase s1 = Picked /\ o_total (s_op s1) = o_total (s_op s) /\ s_closed s1 = s_closed s /\
+                s_stopped s1 = s_stopped s /\ s_fderr s1 = s_fderr s /\
+                get_error (s_closed s) (s_stopped s) (s_fderr s) true = 0 /\ NW sub s1)).
+  { assert (N1 : NW sub s1) by (apply step_NW; auto; exact I).
+    subst s1. cbn [step] in *. rewrite Ph in *.
+    destruct (Z.eqb_spec (get_error (s_closed s) (s_stopped s) (s_fderr s) true) 0) as [G|G]; cbn [negb] in *.
+    - right. destruct (_ && _).
+      + unfold with_deliver in *. pose proof (KT (s_stopped s) FL_DELIVER (s_op s)) as T.
+        destruct (deliver_data _ _ _); cbn in *. auto 10.
+      + cbn. auto 10.
+    - left. apply complete_phase. }
+  destruct S1 as [C1|(P1 & T1 & Cl & St & Fd & G & N1)].
+  - left. apply (run_completed c [EvPerform rs; EvAct]). exact C1.
+  - cbn [step]. rewrite P1.
+    destruct (perform c (s_closed s1) (s_stopped s1) (s_fderr s1) (s_op s1) rs) as [[[o r] f] moved] eqn:E.
+    cbn [step s_phase].
+    unfold perform in E. rewrite Cl, St, Fd, G in E. cbn [Z.eqb negb] in E. rewrite Fr in E.
+    destruct (Z.eqb_spec (zlen bs) 0); [lia|].
+    destruct N1 as (((WI & _) & _) & _).
+    destruct (alloc_write c sub (s_op s1) WI (WInv_high _ _ WI)) as (WA & _ & TA & _ & _).
+    pose proof WA as (Ww & _). rewrite Ww in E. cbn [o_total set_total o_length set_buf] in E.
+    destruct (_ =? _) in E; injection E as <- <- <- <-.
+    + left. change (DISPATCH_OP_COMPLETE =? DISPATCH_OP_DELIVER) with false.
+      change (DISPATCH_OP_COMPLETE =? DISPATCH_OP_DELIVER_AND_COMPLETE) with false.
+      change (DISPATCH_OP_COMPLETE =? DISPATCH_OP_COMPLETE) with true. cbn iota. apply complete_phase.
+    + right. change (DISPATCH_OP_DELIVER =? DISPATCH_OP_DELIVER) with true. cbn iota.
+      split; [apply with_deliver_phase|].
+      unfold with_deliver. cbn [s_op s_stopped].
+      match goal with |- context [deliver_data ?a ?b ?x] =>
+        pose proof (KT a b x) as T2; destruct (deliver_data a b x) as [o2 cs2] end.
+      cbn in *. rewrite T2. cbn [o_total set_total]. rewrite TA, T1. reflexivity.
+Qed.
+
+Lemma write_completes_aux c sub : 1 <= chunk_size c -> zlen sub < SIZE_MAX ->
+  forall rounds s, NW sub s -> (s_phase s = Idle \/ s_phase s = Completed) ->
+  ready_rounds c s rounds -> zlen sub - o_total (s_op s) <= Z.of_nat (length rounds) ->
+  s_phase (run c s (concat (map round rounds))) = Completed.
+Proof.
+  intros Hc Hl. induction rounds as [|rs t IH]; intros s N Ph Hr Hm.
+  - cbn. destruct Ph as [Ph|Ph]; auto. exfalso.
+    destruct N as ((((_ & L & _) & _) & _) & (_ & _ & P)). rewrite Ph in P. destruct P as (_ & I2).
+    cbn in Hm. rewrite L in I2. specialize (I2 Hl). lia.
+  - cbn [map concat]. unfold run. rewrite fold_left_app. fold (run c s (round rs)).
+    fold (run c (run c s (round rs)) (concat (map round t))).
+    destruct Ph as [Ph|Ph]; [|apply run_completed; now apply run_completed].
+    cbn [ready_rounds] in Hr. destruct Hr as (Hf & Hr).
+    destruct (first_result rs) as [[bs|]|] eqn:Fr; try contradiction.
+    destruct (write_round_progress c sub s rs bs Hc Hl N Ph Fr Hf) as (N' & [C|(I & T)]).
+    + now apply run_completed.
+    + apply IH; auto. rewrite T. cbn [length] in Hm. lia.
+Qed.
+
+(* a write whose descriptor accepts at least one byte whenever the handler asks completes within `size` rounds, with done,
+   error 0, and every byte accepted *)
+Theorem write_completes_when_ready : forall c disk conv d p iv strict rounds,
+  1 <= chunk_size c -> 1 <= p_high p -> 1 <= zlen (flat d) < SIZE_MAX ->
+  let s0 := st_init (op_init true disk conv (zlen (flat d)) d p iv strict) in
+  ready_rounds c s0 rounds -> zlen (flat d) <= Z.of_nat (length rounds) ->
+  let s := run c s0 (concat (map round rounds)) in
+  s_phase s = Completed /\ done_last (s_calls s).
+Proof.
+  intros c disk conv d p iv strict rounds Hc Hp Hl s0 Hr Hn s.
+  assert (C : s_phase s = Completed).
+  { apply (write_completes_aux c (flat d) Hc ltac:(lia) rounds s0); auto.
+    - apply NW_init; auto; lia.
+    - cbn. lia. }
+  split; auto. now apply done_exactly_once_last.
 Qed.
